@@ -115,6 +115,12 @@ func (e *executor) Prepare(workflow *Workflow, workflowContext map[string][]byte
 	ownWorkflow.Outputs, _ = copyWorkflowData(workflow.Outputs).(map[string]any)
 	//goland:noinspection GoDeprecation
 	ownWorkflow.Output = copyWorkflowData(workflow.Output)
+	// Linking the scope of a declared output schema writes into it, and it belongs to the caller as well.
+	ownOutputSchemas, err := copyOutputSchemas(workflow.OutputSchema)
+	if err != nil {
+		return nil, &ErrInvalidWorkflow{err}
+	}
+	ownWorkflow.OutputSchema = ownOutputSchemas
 	workflow = &ownWorkflow
 
 	dag := dgraph.New[*DAGItem]()
@@ -288,6 +294,34 @@ func copyWorkflowData(data any) any {
 	default:
 		return data
 	}
+}
+
+// copyOutputSchemas returns new output schema objects that are equal to the declared ones.
+func copyOutputSchemas(declared map[string]*schema.StepOutputSchema) (map[string]*schema.StepOutputSchema, error) {
+	if declared == nil {
+		return nil, nil
+	}
+	result := make(map[string]*schema.StepOutputSchema, len(declared))
+	for outputID, outputSchema := range declared {
+		if outputSchema == nil {
+			result[outputID] = nil
+			continue
+		}
+		serialized, err := schema.DescribeStepOutput().Serialize(outputSchema)
+		if err != nil {
+			return nil, fmt.Errorf("failed to copy the output schema of output %s (%w)", outputID, err)
+		}
+		unserialized, err := schema.DescribeStepOutput().Unserialize(serialized)
+		if err != nil {
+			return nil, fmt.Errorf("failed to copy the output schema of output %s (%w)", outputID, err)
+		}
+		ownSchema, ok := unserialized.(*schema.StepOutputSchema)
+		if !ok {
+			return nil, fmt.Errorf("bug: the copy of the output schema of output %s is a %T", outputID, unserialized)
+		}
+		result[outputID] = ownSchema
+	}
+	return result, nil
 }
 
 func (e *executor) processInput(workflow *Workflow) (schema.Scope, error) {
